@@ -48,7 +48,7 @@ CHECKS = {
          "Commutativity over pairs of ~140 literal quantities (incl. prefixed bases, one unit under several prefixes and powers, derived-per-base compounds) and ~770 facts (all multi-word phrases plus every typeable single-word fact that is not a unit word), a-a, a/a for all, associativity and distributivity over a core of triples; both sides compared in SI normal form within one Db instance.",
          "Independent unit table for the SI normal form; plain-number adoption and zero divisors are outside the laws' preconditions.", "3 C13"),
  "C14": ("model_checking", "stateless depth-first schedule exploration of the real index build under a controlled scheduler at tantivy's layout-determining seams (vendored tantivy with gates), plus session histories mem / disk-first / disk-reopen / disk-rebuild",
-         "Every assignment of documents to indexing workers (symmetry-reduced), every order of equally sized segments, merge timing and merge input order is enumerated on the real Db::in_memory()/Db::open() over reduced data sets of shipped constants that tie for the ambiguous probes; every session of every execution must answer the probe set like the reference execution (and own-word probes must find their constant); on-disk layouts are read back from the real index; the full shipped data runs under corner schedules, each followed by every single deviation at every tie-order and merge-timing point (so a build that leaves several equal-sized segments is explored in every segment order). Probes: every constant's full word set, every distinct single word of the data set, word prefixes of length 1..3 and ordered pairs of word initials; every probe is asked twice per session (one database answering differently is a violation in itself).",
+         "Every assignment of documents to indexing workers (symmetry-reduced), every order of equally sized segments, merge timing and merge input order is enumerated on the real Db::in_memory()/Db::open() over reduced data sets of shipped constants that tie for the ambiguous probes; every session history of up to 2 (thorough 4) sessions over {in-memory build, on-disk session, on-disk session over other data} is explored the same way (a disk session after another is a reopen or a rebuild); every session of every execution must answer the probe set like the reference execution (and own-word probes must find their constant); on-disk layouts are read back from the real index; the full shipped data runs under corner schedules, each followed by every single deviation at every tie-order and merge-timing point (so a build that leaves several equal-sized segments is explored in every segment order). Probes: every constant's full word set, every distinct single word of the data set, word prefixes of length 1..3 and ordered pairs of word initials; every probe is asked twice per session (one database answering differently is a violation in itself).",
          "Layout depends on scheduling only through the four gated seams (argued in DESIGN 2.6, cross-checked by reading real on-disk layouts back); nondeterminism that does not pass through those seams is not enumerated, only observed through the run's independent builds and double-asked probes; vendored tantivy = registry 0.19.2 + vendor/tantivy-gates.patch (checked in setup); hook H1 (asset directory seam) supplies the reduced data sets.", "3 C14"),
  "C15": ("fault_enumeration", "exhaustive crash-point (and torn-write) enumeration of the real start-up under an LD_PRELOAD fault injector, crossed with prior directory states and followed by crash-free starts",
          "The real Db::open() is killed before every one of its file-system mutations (every point; thorough also torn writes and two-crash histories: every pair of crash points from the absent prior) from each prior directory state; after each crash: meta.json current => index complete (checked with tantivy independently), and two crash-free starts must answer the probe set exactly like a fresh in-memory database. Every listed prior state (absent, other major version, next patch version / build suffix over an index with other content, other data, missing/truncated/garbage metadata incl. every proper prefix, 18 well-formed JSON documents of the wrong shape, missing index directory) is also started crash-free.",
